@@ -402,16 +402,21 @@ class AsyncInotifyWrapper:
                         path = paths.pop(0)
                         if path not in self.watches:
                             continue
-                        if self.watches[path] is None:
-                            # When a directory is added that was once watched,
-                            # recreate the watch right away.
-                            self._install_watch(path)
-                        # Events of files created in this directory may have been missed.
-                        for sub_path in path.iterdir():
-                            if sub_path.is_file():
-                                self.change_queue.put_nowait((Change.UPDATED, sub_path))
-                            elif sub_path.is_dir():
-                                paths.append(sub_path)
+                        try:
+                            if self.watches[path] is None:
+                                # When a directory is added that was once watched,
+                                # recreate the watch right away.
+                                self._install_watch(path)
+                            # Events of files created in this directory may have been missed.
+                            for sub_path in path.iterdir():
+                                if sub_path.is_file():
+                                    self.change_queue.put_nowait((Change.UPDATED, sub_path))
+                                elif sub_path.is_dir():
+                                    paths.append(sub_path)
+                        except OSError:
+                            # The directory is gone again (removed or moved away
+                            # before this event was handled): wait for it to reappear.
+                            self.watches[path] = None
             else:
                 self.change_queue.put_nowait((change, path))
 
